@@ -281,14 +281,19 @@ func (c *Ctx) arraySnapshot(st *State, ref *Term, t types.Type) *Val {
 	a := t.Underlying().(*types.Array)
 	k, ks, es := c.arrKey(t)
 	contents := tSelect(c.get(st, k, ks), ref)
-	n := c.sc.freshConst("arrv", SSl)
-	c.sc.assert(tEq(tApp(SInt, "slen", n), intLit(a.Len())))
 	at := atFun(c, es)
 	if a.Len() <= 8 {
+		var elems []*Term
 		for i := int64(0); i < a.Len(); i++ {
-			c.sc.assert(tEq(tApp(es, at, n, intLit(i)), tSelect(contents, intLit(i))))
+			elems = append(elems, tSelect(contents, intLit(i)))
 		}
-	} else {
+		n := c.sc.freshConst("arrv", SSl)
+		c.sc.assert(tEq(n, c.mkSlice(es, elems)))
+		return scalar(n, t)
+	}
+	n := c.sc.freshConst("arrv", SSl)
+	c.sc.assert(tEq(tApp(SInt, "slen", n), intLit(a.Len())))
+	{
 		c.sc.assert(mk(SBool, "(forall ((i Int)) (! (=> (and (<= 0 i) (< i %d)) (= (%s %s i) (select %s i))) :pattern ((%s %s i))))", a.Len(), at, n.S, contents.S, at, n.S))
 	}
 	return scalar(n, t)
@@ -512,3 +517,59 @@ func (c *Ctx) assumeExisting(st *State, v *Term, guard *Term) {
 }
 
 func leafName(s string) string { return strings.TrimPrefix(s, ".") }
+
+// mkSlice builds the canonical slice value with the given elements.
+func (c *Ctx) mkSlice(es Sort, elems []*Term) *Term {
+	if len(elems) == 0 {
+		name := "sl0_" + sortName(es)
+		c.sc.declareConst(name, SSl)
+		c.sc.axiomOnce(fmt.Sprintf("(= (slen %s) 0)", name))
+		return &Term{name, SSl}
+	}
+	name := fmt.Sprintf("sl%d_%s", len(elems), sortName(es))
+	if !c.sc.declSeen[name] {
+		args := make([]Sort, len(elems))
+		var binders, names []string
+		for i := range elems {
+			args[i] = es
+			binders = append(binders, fmt.Sprintf("(a%d %s)", i, es))
+			names = append(names, fmt.Sprintf("a%d", i))
+		}
+		c.sc.declareFun(name, args, SSl)
+		at := atFun(c, es)
+		app := fmt.Sprintf("(%s %s)", name, strings.Join(names, " "))
+		parts := []string{fmt.Sprintf("(= (slen %s) %d)", app, len(elems))}
+		for i := range elems {
+			parts = append(parts, fmt.Sprintf("(= (%s %s %d) a%d)", at, app, i, i))
+		}
+		c.sc.axiomOnce(fmt.Sprintf("(forall (%s) (! (and %s) :pattern (%s)))", strings.Join(binders, " "), strings.Join(parts, " "), app))
+	}
+	return tApp(SSl, name, elems...)
+}
+
+// packVariadic turns f(a, b, c) into f(a, slice{b, c}) when f is variadic and the call is not already packed.
+func (c *Ctx) packVariadic(sig *types.Signature, args []*Val) []*Val {
+	if !sig.Variadic() {
+		return args
+	}
+	np := sig.Params().Len()
+	last := sig.Params().At(np - 1).Type()
+	if len(args) == np && args[np-1].T != nil && args[np-1].T.Sort == SSl {
+		if es, ok := sortOf(elemType(last)); !ok || es != SSl {
+			return args
+		}
+	}
+	es, ok := sortOf(elemType(last))
+	if !ok || len(args) < np-1 {
+		return args
+	}
+	var elems []*Term
+	for _, a := range args[np-1:] {
+		if a.T == nil || a.T.Sort != es {
+			return args
+		}
+		elems = append(elems, a.T)
+	}
+	out := append([]*Val{}, args[:np-1]...)
+	return append(out, scalar(c.mkSlice(es, elems), last))
+}
